@@ -58,8 +58,25 @@ def to_signed(v, bits):
     return v - (1 << bits) if v >> (bits - 1) else v
 
 
+def is_zint(v):
+    return isinstance(v, z3.ArithRef) and v.is_int()
+
+
+def zint(v, bits):
+    """coerce an integer value to a z3 Int (signed interpretation)"""
+    if is_zint(v):
+        return v
+    if isinstance(v, z3.BitVecRef):
+        return z3.BV2Int(v, is_signed=True)
+    if isinstance(v, z3.BoolRef):
+        return z3.If(v, z3.IntVal(1), z3.IntVal(0))
+    return z3.IntVal(to_signed(int(v), bits))
+
+
 def bv(v, bits):
     """coerce int value to z3 BV of width bits"""
+    if is_zint(v):
+        return z3.Int2BV(v, bits)
     if isinstance(v, z3.BitVecRef):
         return v
     if isinstance(v, z3.BoolRef):
@@ -335,16 +352,22 @@ class FP:
             if self._nonfinite(x):
                 return 0
             return int(x) & mask(bits)  # trunc toward zero
+        xr = realz(x)
+        self.ctx.res.assumptions.add("integers obtained from double->int conversions are mathematical integers "
+                                     "(conversion in range, later int arithmetic on them does not wrap: both are UB in C otherwise)")
+        if z3.is_app_of(xr, z3.Z3_OP_TO_REAL):
+            return xr.arg(0)
         k = self.ctx.fresh_int("fptosi")
         kr = z3.ToReal(k)
-        xr = realz(x)
         self.ctx.add_side(z3.If(xr >= 0, z3.And(kr <= xr, xr < kr + 1), z3.And(kr >= xr, xr > kr - 1)), None)
-        return z3.Int2BV(k, bits)
+        return k
 
     def sitofp(self, v, bits, signed=True):
         if not is_sym(v):
             v = to_signed(v, bits) if signed else v
             return Fraction(v) if self.exact else float(v)
+        if is_zint(v):
+            return z3.ToReal(v)
         b = bv(v, bits)
         return z3.ToReal(z3.BV2Int(b, is_signed=signed))
 
@@ -393,6 +416,9 @@ def int_bin(op, a, b, bits):
     if bits == 1 and op in ("and", "or", "xor"):
         x, y = boolz(a), boolz(b)
         return {"and": z3.And, "or": z3.Or, "xor": z3.Xor}[op](x, y)
+    if (is_zint(a) or is_zint(b)) and op in ("add", "sub", "mul"):
+        x, y = zint(a, bits), zint(b, bits)
+        return x + y if op == "add" else x - y if op == "sub" else x * y
     x, y = bv(a, bits), bv(b, bits)
     if op == "add":
         return x + y
@@ -435,6 +461,9 @@ def int_cmp(pred, a, b, bits):
             return x == y
         if pred == "ne":
             return z3.Xor(x, y)
+    if (is_zint(a) or is_zint(b)) and pred in ("eq", "ne", "sgt", "sge", "slt", "sle"):
+        x, y = zint(a, bits), zint(b, bits)
+        return {"eq": x == y, "ne": x != y, "sgt": x > y, "sge": x >= y, "slt": x < y, "sle": x <= y}[pred]
     x, y = bv(a, bits), bv(b, bits)
     if pred == "eq":
         return x == y
@@ -467,6 +496,8 @@ def int_cast(op, v, fb, tb):
             return v
         if op == "sext":
             return to_signed(v, fb) & mask(tb)
+    if is_zint(v):
+        return v
     if op == "trunc":
         if tb == 1:
             return z3.Extract(0, 0, bv(v, fb)) == z3.BitVecVal(1, 1)
